@@ -304,11 +304,29 @@ struct Engine
             va2.push_back(build<VecA>(seq, fixed, 2 + v % 3, 24, 2, j3));
             vb.push_back(build<VecB>(seq, fixed, v % 2, 0, 0, j1));
         }
+        // a default-constructed vector is one more representation of the logical empty vector (C18: comparison is well
+        // defined on it)
+        const VecA dflt_a{};
+        const VecB dflt_b{};
         std::vector<unsigned> VR(L * L, 0);
         for (size_t x = 0; x < L; ++x)
             for (size_t y = 0; y < L; ++y)
             {
                 ++vec_pairs;
+                if (lv[x].empty())
+                {
+                    const unsigned ref0 = cmp6(std::as_const(va1[x]), std::as_const(va1[y]));
+                    const unsigned d1 = cmp6(dflt_a, va2[y]), d2 = cmp6(dflt_b, va1[y]), d3 = cmp6(dflt_a, vb[y]);
+                    if (d1 != ref0 || d2 != ref0 || d3 != ref0)
+                        viol("C13,C14,C18", "vector_representation_dependence", fmt("default-constructed vector vs vector %zu: %02x / %02x / %02x, empty constructed vector gives %02x", y, d1, d2, d3, ref0));
+                }
+                if (lv[y].empty())
+                {
+                    const unsigned ref0 = cmp6(std::as_const(va1[x]), std::as_const(va1[y]));
+                    const unsigned d1 = cmp6(va2[x], dflt_a), d2 = cmp6(va1[x], dflt_b), d3 = cmp6(vb[x], dflt_a);
+                    if (d1 != ref0 || d2 != ref0 || d3 != ref0)
+                        viol("C13,C14,C18", "vector_representation_dependence", fmt("vector %zu vs default-constructed vector: %02x / %02x / %02x, empty constructed vector gives %02x", x, d1, d2, d3, ref0));
+                }
                 const unsigned m0 = cmp6(std::as_const(va1[x]), std::as_const(va1[y]));
                 const unsigned m1 = cmp6(va1[x], va2[y]);
                 const unsigned m2 = cmp6(va2[x], vb[y]);
